@@ -109,6 +109,7 @@ type memConn struct {
 	//   bit 1: a failing Write reports an error that wraps io.EOF
 	//   bit 2: the second and later Close calls return an error (net.Conn does)
 	//   bit 3: the transport also offers CloseWrite() like *net.TCPConn / *tls.Conn (see memConnCW)
+	//   bit 4: Close takes a while (1.5 ms) before it takes effect, as a TLS or WebSocket closing handshake does
 	flavour int
 	nClose  int32
 	wClosed int32 // CloseWrite was called
@@ -241,6 +242,9 @@ func (c *memConn) writeErr(err error) error {
 
 func (c *memConn) Close() error {
 	n := atomic.AddInt32(&c.nClose, 1)
+	if c.flavour&16 != 0 && n == 1 {
+		time.Sleep(1500 * time.Microsecond)
+	}
 	c.mu.Lock()
 	if c.localClosed {
 		c.mu.Unlock()
